@@ -215,6 +215,11 @@ class CaseInsensitiveDefaultDict(CaseInsensitiveDict):
             return default[0]
         return super(CaseInsensitiveDefaultDict, self).pop(key)
 
+    def setdefault(self, key, default=None):
+        if key not in self:
+            self[key] = default
+        return self[key]
+
     def lower(self):
         result = type(self)(self.default_factory)
         result.update(self.items_lower())
